@@ -70,7 +70,7 @@ def run(ctx):
     check_no_early_exit(ctx, "c10.loop", prog, f, "q_sol;jul")
     root = Scope(prog, f)
     bt = [v["name"] for v in prog.adt("bemodel::types::common::BoundaryType")["variants"]]
-    filt = [ch for (b, t, ch) in root.children() if ch.via[0] == "filter" and (ch.via[1].source_name() or "").endswith("props.windows")]
+    filt = [ch for (b, t, ch) in root.children() if ch.via[0] == "filter" and ((ch.via[1].source_name() if ch.via[1] is not None else None) or "").endswith("props.windows")]
     ctx.require(len(filt) >= 1, "QSolJulData::from: window filter not found")
     scope_table(ctx, "c10.scope", "c10.scope|windows", filt, ["is_tenv", "bounds"], {"bounds": bt},
                 lambda a: a["is_tenv"] and a["bounds"] in ("EXTERIOR", "GROUND"), f.loc())
